@@ -257,7 +257,11 @@ def main(argv):
                                       tags=["spelling"])
                         continue
                     # make every server exist, then switch the refusals on
-                    hc.get_many(keys)
+                    try:
+                        hc.get_many(keys)
+                    except Exception as e:
+                        ctx.violation("get_many raised on healthy servers with legal keys", dict(case0, error=repr(e)[:100]), tags=["op:get_many", "merge"])
+                        continue
                     for srv in S.srvs.values():
                         srv.refuse_keys = {wire(k, pfx) for k in refused}
                         del srv.cmds[:]
@@ -272,13 +276,20 @@ def main(argv):
                         ctx.violation("set_many did not send each key exactly once to the server placement assigns to it (and to no other)",
                                       dict(case0, observed=[(a_, hx(b_)) for a_, b_ in observed][:8], expected=[(a_, hx(b_)) for a_, b_ in expected][:8]), tags=["op:set_many", "spelling"])
                         continue
-                    singles = sorted(k for k in keys if hc.set(k, b"v", noreply=False) is not True)
+                    try:
+                        singles = sorted(k for k in keys if hc.set(k, b"v", noreply=False) is not True)
+                    except Exception as e:
+                        ctx.violation("set raised on healthy servers with a legal key", dict(case0, error=repr(e)[:100]), tags=["op:set", "merge"])
+                        continue
                     if sorted(failed) != sorted(refused) or singles != sorted(refused):
                         ctx.violation("set_many does not report exactly the keys that were not stored (= the keys for which a single set reports failure)",
                                       dict(case0, failed=sorted(map(str, failed))[:10], n_failed=len(failed), want=sorted(refused)[:10], n_want=len(refused), per_key_set_failures=len(singles)),
                                       tags=["op:set_many", "merge"])
                         continue
-                    gm = hc.get_many(keys)
+                    try:
+                        gm = hc.get_many(keys)
+                    except Exception as e:
+                        gm = repr(e)
                     if gm != {k: b"v" for k in keys if k not in refused}:
                         ctx.violation("get_many does not return exactly what was stored", dict(case0, got=len(gm)), tags=["op:get_many", "merge"])
     if ctx.lean.build_ok:
